@@ -209,10 +209,8 @@ def clause3_typing(ctx, P):
         raise AnalysisBroken("set_or_call: routing sites not found")
 
     def what(atom, pol, k, want):
-        if atom[0] == "cmp" and atom[2][0] == "param" and atom[2][1] == 2 and atom[3] == ("const", k):
-            eq = (atom[1] == "eq" and pol) or (atom[1] == "ne" and not pol)
-            return eq == want
-        return False
+        r = Q.const_relation(atom, pol, lambda t: t[0] == "param" and t[1] == 2, k)
+        return r is not None and r == want
 
     def found(atom, pol):
         return atom[0] == "cmp" and Q.is_call_to(atom[2], "element_table_get") and atom[3] == ("null",) and \
